@@ -22,7 +22,7 @@ Cfg swarm_cfg(Rng& r, const SwarmOpts& o) {
     }
     c.steps = r.range(o.min_steps, o.max_steps);
     long nsteps = r.range((long)o.min_rot_steps, (long)o.max_rot_steps);
-    c.rotations = (nsteps - 0.5) / (double)c.steps;
+    c.rotations = nsteps > 0 ? (nsteps - 0.5) / (double)c.steps : 0;
     {
         std::vector<long> outs = {0, 1, 1, 2, 3, 5, nsteps, nsteps + 3};
         c.outstep = r.pick(outs);
